@@ -30,6 +30,7 @@ var suitesByProp = map[string][]func(*runner, *rng){
 	"C07": {suiteConvert, suiteConvertModel},
 	"C20": {suiteConcurrency},
 	"C18": {suiteFaults},
+	"C05": {suiteStl},
 }
 
 func readRepoFile(rel string) ([]byte, error) { return os.ReadFile(repoDir + "/" + rel) }
